@@ -15,6 +15,10 @@ pub type Bag = Vec<Row>;
 pub enum EvalError {
     /// intermediate result too large for the brute-force oracle (case is skipped)
     TooBig,
+    /// an aggregate ranges over a bound value that is not a number: SPARQL's answer (type
+    /// error for SUM/AVG, term ordering for MIN/MAX) cannot be modelled in an untyped store,
+    /// so the case is outside the fragment the oracle decides (skipped and counted)
+    NonNumericAggregate,
 }
 
 pub const MAX_ROWS: usize = 120_000;
@@ -56,6 +60,9 @@ pub struct Sem {
     pub bind_unbound_is_empty: bool,
     /// AVG over an empty group is unbound instead of 0
     pub avg_of_nothing_is_unbound: bool,
+    /// inside `GRAPH ?g { … }` the graph variable is already bound when the FILTERs / BINDs of
+    /// that block's own group are evaluated (the algebra joins ?g only after the block)
+    pub graph_variable_prebound: bool,
 }
 
 pub struct Ev<'a> {
@@ -253,7 +260,11 @@ impl<'a> Ev<'a> {
 
     /// Evaluate a group graph pattern (list of elements) with the given active graph.
     pub fn eval_group(&self, g: &[P], active: &Option<String>) -> Result<Bag, EvalError> {
-        let mut cur: Bag = vec![Row::new()];
+        self.eval_group_seeded(g, active, Row::new())
+    }
+
+    fn eval_group_seeded(&self, g: &[P], active: &Option<String>, seed: Row) -> Result<Bag, EvalError> {
+        let mut cur: Bag = vec![seed];
         let mut filters: Vec<&Expr> = vec![];
         for p in g {
             match p {
@@ -328,9 +339,9 @@ impl<'a> Ev<'a> {
                     if !self.ds.graphs.contains(g) {
                         continue;
                     }
-                    let rows = self.eval_group(inner, &Some(g.clone()))?;
                     let mut gb = Row::new();
                     gb.insert(v.clone(), g.clone());
+                    let rows = if self.sem.graph_variable_prebound { self.eval_group_seeded(inner, &Some(g.clone()), gb.clone())? } else { self.eval_group(inner, &Some(g.clone()))? };
                     out.extend(join(&rows, &vec![gb])?);
                     if out.len() > MAX_ROWS {
                         return Err(EvalError::TooBig);
@@ -360,7 +371,7 @@ impl<'a> Ev<'a> {
     /// LIMIT, the information needed to check a legal cut.
     pub fn eval_select_inner(&self, q: &Select, active: &Option<String>) -> Result<Answer, EvalError> {
         let rows = self.eval_group(&q.group, active)?;
-        let mut rows = if q.has_aggregates() || !q.group_by.is_empty() { aggregate(rows, q, &self.sem) } else { rows };
+        let mut rows = if q.has_aggregates() || !q.group_by.is_empty() { aggregate(rows, q, &self.sem)? } else { rows };
         // ORDER BY (stable, by the documented comparator) — only meaningful for the caller
         // when keys are of one kind; the sequence is used for sub-select LIMIT, which the
         // generator only emits with a total order over identical-or-distinct rows.
@@ -402,7 +413,7 @@ pub fn canon_num(x: f64) -> String {
     }
 }
 
-fn aggregate(rows: Bag, q: &Select, sem: &Sem) -> Bag {
+fn aggregate(rows: Bag, q: &Select, sem: &Sem) -> Result<Bag, EvalError> {
     let mut groups: BTreeMap<Vec<Option<String>>, Bag> = BTreeMap::new();
     for r in rows {
         let key: Vec<Option<String>> = q.group_by.iter().map(|v| r.get(v).cloned()).collect();
@@ -428,6 +439,9 @@ fn aggregate(rows: Bag, q: &Select, sem: &Sem) -> Bag {
                 // numeric values of the group; a bound non-numeric value is a type error for the
                 // whole aggregate in SPARQL (generators keep aggregated variables numeric in the
                 // core class; such cases are classified separately by the caller)
+                if grp.iter().filter_map(|r| r.get(v)).any(|s| num(s).is_none()) {
+                    return Err(EvalError::NonNumericAggregate);
+                }
                 let vals: Vec<f64> = grp.iter().filter_map(|r| r.get(v)).filter_map(|s| num(s)).collect();
                 let val = match a {
                     Agg::Sum => Some(vals.iter().sum::<f64>()),
@@ -454,7 +468,7 @@ fn aggregate(rows: Bag, q: &Select, sem: &Sem) -> Bag {
         }
         out.push(row);
     }
-    out
+    Ok(out)
 }
 
 /// Compare two rows by ORDER BY keys with the documented comparator (numbers by value,
